@@ -21,6 +21,9 @@ CORPUS = [
     "-name a -fprint A -o -name b -fprint B -o -name c -fprint0 C", "-mtime -3 -atime +1 -cmin 5 -print", "-amin 4 -fprint A -mmin +2 -fprint B",
     "-true", "-size +3k -uid 5 -print", "-path x -ipath y -name x -iname y -print0 -fprint0 Z -fprintf Z 'q'",
     "-fprint A -fprint B -fprint C -fprint D -fprint E", "-ctime 1 -o -ctime 2 -o -ctime 3",
+    # repeated elements (a de-duplication through a hashed container would reorder them)
+    "-type f,d,f -print", "-type f,d,l,p,s,f", "-type d -o -type d,f,d", "-perm -u+x,g+x,u+x,o+r", "-name a -o -name b -o -name a -o -name c -o -name b",
+    "-fprint A -fprint B -fprint A -fprint C -fprint B",
     "-printf '%g\\n'", "-name a -printf '%s %p\\n' -o -fprintf A '%u:%U\\n'", "-perm -u+w -size -2k -links +3 -printf '%m %n\\n'",
 ]
 A_CLASS, D_CLASS = "pfguhPH", "sUGinbk"
